@@ -163,6 +163,22 @@ def gen_cases(rng, tier):
     # (after all the others: the cases above are the same as before for a given seed)
     for i in range(36 if tier == "quick" else 400):
         yield S.gen_restricted_case(rng, i)
+    # multi-fidelity BO on small finite spaces driven until nothing is left: trials move between pending and observed while
+    # other trials are pending (a trial that has observations already reaches its next rung level)
+    for _ in range(10 if tier == "quick" else 100):
+        spec = gen_gp_exhaust_case(rng, tier)
+        spec.update({"sched": rng.choice(["hb-promotion", "hb-stopping"]), "p_nan": 0, "p_burst": rng.choice([0.5, 0.8])})
+        yield spec
+    # BO on continuous spaces whose optimiser proposals lie on the faces of the unit cube (where expected improvement often has
+    # its maximum): bounds of log-scaled / linear domains that exp(log(.)) / the affine map do not reproduce exactly
+    bad = [["loguniform", [1e-4, 1e-1]], ["loguniform", [1e-5, 0.1]], ["loguniform", [1e-6, 1e-2]], ["loguniform", [1e-3, 10.0]],
+           ["uniform", [0.1, 0.3]], ["reverseloguniform", [0.5, 0.99]], ["loguniform", [0.001, 0.25]], ["uniform", [-1.1, 2.3]]]
+    for _ in range(8 if tier == "quick" else 80):
+        names = ["lr", "wd", "mom"]
+        space = [[names[j], k, list(a), {}] for j, (k, a) in enumerate(rng.sample(bad, rng.randint(1, 3)))]
+        yield {"scenario": "gp", "space": space, "seed": rng.randrange(10 ** 9), "sched": rng.choice(["fifo", "hb-promotion"]),
+               "n_suggest": 10, "num_init_random": 2, "num_init_candidates": 4, "p2e": None, "p_fail": 0, "p_nan": 0,
+               "allow_duplicates": False, "p_face": 0.8}
 
 
 def corpus():
@@ -372,6 +388,21 @@ def monitor(spec, t):
                 n_init += 1
     else:
         n_init = 0
+    # 3a'. the exclusion list handed to the final pick holds every configuration suggested so far (each is pending, observed or
+    #      failed): it never has fewer entries than there are distinct suggestions (no repeats promised)
+    if spec["scenario"] == "gp" and not spec.get("allow_duplicates"):
+        hp_keys_x = [k for k, d in hp_cs.items() if isinstance(d, Domain)]
+        distinct_sugg = []
+        for e in events:
+            if e["ev"] == "suggest":
+                c = {k: e["config"][k] for k in hp_keys_x}
+                if c not in distinct_sugg:
+                    distinct_sugg.append(c)
+            elif e["ev"] == "bo_pick" and len(set(e["excl"])) < len(distinct_sugg):
+                add("c06:exclusion-list-misses-suggested-config",
+                    f"the exclusion list of a model-based get_config has {len(set(e['excl']))} entries although {len(distinct_sugg)} different "
+                    f"configurations have been suggested (each of them is pending, observed or failed)", {"excl": e["excl"]})
+                break
     # 3a. the model-based searchers exclude failed configurations whether or not duplicates are allowed
     #     ("even if allow_duplicates == True, we exclude configs which are pending or failed")
     if spec["scenario"] == "gp":
